@@ -10,6 +10,7 @@ import os
 import shutil
 import tempfile
 import threading
+import warnings
 
 import numpy as np
 
@@ -878,6 +879,73 @@ def replay(path):
         print("(re-run the check to reproduce; inputs are in `data`)")
 
 
+class PlainTarget:
+    """a picklable non-NumPy target (module level: a process pool could ship it)"""
+
+    def __init__(self, shape):
+        self.a = np.full(shape, -1.0)
+
+    def __setitem__(self, k, v):
+        self.a[k] = v
+
+
+def fam_store_directed(chk, da, dask):
+    """(1) a serializing scheduler configured globally and no scheduler= argument: as soon as ANY target is an in-memory NumPy
+    array the store must run locally, also when other targets of the same call are not ndarrays; (2) zero-dimensional sources
+    stored with an all-integer region write exactly that cell"""
+    a = np.arange(24.0).reshape(4, 6) + 1
+    for mix in ("numpy+plain", "plain+numpy", "numpy+numpy", "numpy"):
+        chk.count("store-directed:config-scheduler:" + mix)
+        chk.case(("store-directed", "scheduler", mix), nontrivial=True)
+        x = da.from_array(a, chunks=(2, 3))
+        tn, tp, tn2 = np.full((6, 8), -1.0), PlainTarget((6, 8)), np.full((6, 8), -1.0)
+        region = (slice(1, 5), slice(2, 8))
+        srcs, tgts = {"numpy+plain": ([x, x * 2], [tn, tp]), "plain+numpy": ([x * 2, x], [tp, tn]),
+                      "numpy+numpy": ([x, x * 2], [tn, tn2]), "numpy": ([x], [tn])}[mix]
+        try:
+            with dask.config.set(scheduler="processes"), warnings.catch_warnings():
+                warnings.simplefilter("ignore")
+                da.store(srcs, tgts, regions=[region] * len(srcs))
+        except Exception as e:  # noqa: BLE001
+            chk.violation(f"store with a globally configured process scheduler raises {type(e).__name__}: {str(e)[:100]}", {"targets": mix},
+                          signature={"fn": "store", "class": "config-scheduler-raises"})
+            continue
+        want = np.full((6, 8), -1.0)
+        want[region] = a
+        if not np.array_equal(tn, want):
+            chk.violation("store under a globally configured process scheduler left the in-memory NumPy target unwritten "
+                          "(it was written in a worker's copy)", {"targets": mix, "target": tn.tolist()},
+                          signature={"fn": "store", "class": "wrong-result", "via": "config-scheduler", "targets": mix})
+        else:
+            chk.traces_validated += 1
+    b = np.arange(24.0).reshape(4, 6)
+    for k, (mk, val, region, tshape) in enumerate([
+            (lambda: da.from_array(b, chunks=(2, 3)).sum(), b.sum(), (1, 2), (3, 4)),
+            (lambda: da.from_array(b, chunks=(2, 3)).max(), b.max(), (2, 0), (3, 4)),
+            (lambda: da.from_array(b, chunks=(2, 3))[1, 2], b[1, 2], (0,), (5,)),
+            (lambda: da.from_array(b, chunks=(2, 3)).mean(), b.mean(), (1, 1, 0), (2, 2, 2))]):
+        for kind in ("numpy", "recording"):
+            chk.count("store-directed:0d-with-region")
+            chk.case(("store-directed", "0d", k, kind), nontrivial=True)
+            base = np.full(tshape, -1.0)
+            tgt = base if kind == "numpy" else RecTarget(base)
+            try:
+                with warnings.catch_warnings():
+                    warnings.simplefilter("ignore")
+                    da.store(mk(), tgt, regions=region, scheduler="sync")
+            except Exception as e:  # noqa: BLE001
+                chk.violation(f"storing a 0-d source with an integer region raises {type(e).__name__}: {str(e)[:100]}", {"region": region, "target_shape": tshape},
+                              signature={"fn": "store", "class": "0d-region-raises"})
+                continue
+            want = np.full(tshape, -1.0)
+            want[region] = val
+            if not np.array_equal(base, want):
+                chk.violation("a 0-d source stored with an all-integer region wrote outside its cell", {"region": region, "target": base.tolist(), "want": want.tolist()},
+                              signature={"fn": "store", "class": "wrong-result", "via": "0d-region"})
+            else:
+                chk.traces_validated += 1
+
+
 def run(chk: Check):
     import dask
     import dask_array as da
@@ -896,6 +964,7 @@ def run(chk: Check):
                        "tasks of one store run against the live target objects (local schedulers)"]
     chk.trusted_base = ["recording target harness/c25.py:RecTarget (identifies the written block by its first value)"]
     chk.run_proofs()
+    fam_store_directed(chk, da, dask)
     fam_store_nd(chk, da, dask, chk.tier)
     fam_store_1d(chk, da, dask, chk.tier)
     fam_npy_stack(chk, da, chk.tier)
